@@ -273,3 +273,80 @@ package zygo
 //@ requires wfs(env.linearstack) && env.linearstack.tos >= 0 && wfs(env.datastack) && wfs(env.addrstack) && (env.loopstack != nil ==> wfs(env.loopstack))
 //@ C19 ensures shared: fresh(r0) && r0.symtable == old(env.symtable) && r0.revsymtable == old(env.revsymtable) && r0.nextsymbol == old(env.nextsymbol)
 //@ C19 ensures untouched: env.symtable == old(env.symtable) && env.revsymtable == old(env.revsymtable) && env.nextsymbol == old(env.nextsymbol)
+
+// ===========================================================================
+// C14  hashes are insertion-ordered maps under every history
+// ===========================================================================
+// A-KEY (assumed, see DESIGN): hashing and key comparison are functions of the
+// key value that write nothing, for the supported (non-Selector, non-list) key
+// types; key equality keq is whatever Compare decides.
+//@ spec hashOf(k Sexp) int = ?
+//@ spec keq(a Sexp, b Sexp) bool = ?
+
+//@ func HashExpression
+//@ assume pure
+//@ assume ensures r1 == nil ==> r0 == hashOf(expr)
+
+//@ func (*Zlisp).Compare
+//@ assume C14 pure
+//@ assume ensures keq: iff(r1 == nil && r0 == 0, keq(a, b))
+
+//@ func Cons
+//@ C14 pure
+//@ C14 ensures fresh(r0) && r0.Head == a && r0.Tail == b
+
+//@ func Sexp.SexpString
+//@ assume pure
+//@ func Sexp.Type
+//@ assume pure
+//@ func (*RegisteredType).SexpString
+//@ assume pure
+//@ func (*GoStructRegistryType).Lookup
+//@ assume pure
+
+//@ func (*SexpHash).TypeCheckField
+//@ C14,C17 modifies h.GoStructFactory
+
+//@ macro bucketLen(h *SexpHash, b int) int = ite(has(h.Map, b), len(h.Map[b]), 0)
+//@ macro sameHeaders(h *SexpHash) bool = h.NumKeys == old(h.NumKeys) && h.KeyOrder == old(h.KeyOrder) && h.Map == old(h.Map)
+//@ |  && forall(b, int, has(h.Map, b) == old(has(h.Map, b)) && h.Map[b] == old(h.Map[b]))
+//@ macro sameOrder(h *SexpHash) bool = forall(k, 0 <= k && k < old(len(h.KeyOrder)) ==> h.KeyOrder[k] == old(h.KeyOrder[k]))
+//@ macro absent(h *SexpHash, key Sexp) bool = !has(h.Map, hashOf(key)) || forall(i, 0 <= i && i < len(h.Map[hashOf(key)]) ==> !keq(h.Map[hashOf(key)][i].Head, key))
+
+//@ func (*SexpHash).HashGetDefault
+//@ C14 pure
+//@ C14 ensures missing: r1 == nil && old(absent(hash, key)) ==> r0 == defaultval
+//@ C14 loop 0 invariant -1 <= rangeindex && rangeindex < len(arr) && forall(i, 0 <= i && i <= rangeindex ==> !keq(arr[i].Head, key))
+
+// HashSet stores under the normalised key: a one-element array key [k] means k.
+//@ macro nkey(key Sexp) Sexp = ite(typeis(key, *SexpArray) && len(key.(*SexpArray).Val) == 1, key.(*SexpArray).Val[0], key)
+
+//@ func (*SexpHash).HashSet
+//@ requires hash != nil
+//@ C14,C17 modifies hash.GoStructFactory, hash.NumKeys, hash.KeyOrder, elems(hash.KeyOrder), map(hash.Map), elems(hash.Map[hashOf(nkey(key))])
+//@ C14,C17 ensures rejected: r0 != nil ==> sameHeaders(hash) && sameOrder(hash)
+//@ C14 ensures counts: r0 == nil ==> (hash.NumKeys == old(hash.NumKeys) || hash.NumKeys == old(hash.NumKeys) + 1)
+//@ |  && hash.NumKeys - old(hash.NumKeys) == len(hash.KeyOrder) - old(len(hash.KeyOrder))
+//@ |  && let(k, old(nkey(key)), hash.NumKeys - old(hash.NumKeys) == bucketLen(hash, hashOf(k)) - old(bucketLen(hash, hashOf(k))))
+//@ C14 ensures other-buckets: r0 == nil ==> hash.Map == old(hash.Map) && let(k, old(nkey(key)), forall(b, int, b != hashOf(k) ==> has(hash.Map, b) == old(has(hash.Map, b)) && hash.Map[b] == old(hash.Map[b])))
+//@ C14 ensures order: r0 == nil ==> sameOrder(hash) && (hash.NumKeys == old(hash.NumKeys) + 1 ==> hash.KeyOrder[len(hash.KeyOrder)-1] == old(nkey(key)))
+//@ C14 ensures known-key-keeps-order: r0 == nil && old(!absent(hash, nkey(key))) ==> hash.NumKeys == old(hash.NumKeys) && len(hash.KeyOrder) == old(len(hash.KeyOrder))
+//@ C14 ensures new-key-appended: r0 == nil && old(absent(hash, nkey(key))) ==> hash.NumKeys == old(hash.NumKeys) + 1
+//@ |  && let(k, old(nkey(key)), has(hash.Map, hashOf(k)) && let(n, len(hash.Map[hashOf(k)]), n >= 1 && hash.Map[hashOf(k)][n-1].Head == k && hash.Map[hashOf(k)][n-1].Tail == val))
+//@ C14 loop 0 invariant bounds: -1 <= rangeindex && rangeindex < len(arr) && hash.Map == old(hash.Map)
+//@ C14 loop 0 invariant unvisited: forall(i, rangeindex < i && i < len(arr) ==> arr[i] == old(arr[i]))
+//@ C14 loop 0 invariant nomatch: !found ==> forall(i, 0 <= i && i <= rangeindex ==> !keq(old(arr[i].Head), key))
+//@ C14 loop 0 invariant match: old(absent(hash, nkey(entry(key)))) ==> !found
+
+//@ func (*SexpHash).HashDelete
+//@ requires hash != nil
+//@ C14 modifies hash.NumKeys, hash.KeyOrder, elems(hash.KeyOrder), map(hash.Map), elems(hash.Map[hashOf(key)])
+//@ C14 ensures absent-noop: old(absent(hash, key)) ==> sameHeaders(hash) && sameOrder(hash)
+//@ C14 ensures error-noop: r0 != nil ==> sameHeaders(hash) && sameOrder(hash)
+//@ C14 ensures counts: r0 == nil ==> (hash.NumKeys == old(hash.NumKeys) || hash.NumKeys == old(hash.NumKeys) - 1)
+//@ |  && hash.NumKeys - old(hash.NumKeys) == bucketLen(hash, hashOf(key)) - old(bucketLen(hash, hashOf(key)))
+//@ C14 ensures removed: r0 == nil && !old(absent(hash, key)) ==> hash.NumKeys == old(hash.NumKeys) - 1
+//@ C14 ensures order-shrinks: r0 == nil && !old(absent(hash, key)) && old(exists(j, 0 <= j && j < len(hash.KeyOrder) && keq(hash.KeyOrder[j], key))) ==> len(hash.KeyOrder) == old(len(hash.KeyOrder)) - 1
+//@ C14 ensures order-bounded: len(hash.KeyOrder) <= old(len(hash.KeyOrder)) && len(hash.KeyOrder) >= old(len(hash.KeyOrder)) - 1 && (hash.NumKeys == old(hash.NumKeys) ==> hash.KeyOrder == old(hash.KeyOrder) && sameOrder(hash))
+//@ C14 ensures other-buckets: hash.Map == old(hash.Map) && forall(b, int, b != hashOf(key) ==> has(hash.Map, b) == old(has(hash.Map, b)) && hash.Map[b] == old(hash.Map[b]))
+//@ C14 loop 0 invariant -1 <= rangeindex && rangeindex < len(arr) && forall(i, 0 <= i && i <= rangeindex ==> !keq(arr[i].Head, key))
